@@ -160,6 +160,17 @@ func c11Scenarios(tier string) []Scenario {
 					}
 				}
 			}
+			// the connection's Close reports an error: the client must shut down all the same
+			for _, tc := range grid {
+				for _, withGood := range []bool{false, true} {
+					s := &ClientScenario{V6: v6, T: T, Tries: n, BufCap: 1, CloseAt: tc, CloseErr: true, Bound: 1,
+						Calls: []CallSpec{{ID: 0, Match: MatchGood, CancelAt: -1, After: -1}}}
+					if withGood {
+						s.Dgs = []DgSpec{{At: tc, Kind: DgBad}, {At: tc + 1, Kind: DgGood}}
+					}
+					add(s, "close-reports-error")
+				}
+			}
 			// default buffer capacity and unbuffered
 			for _, bc := range []int{-1, 0} {
 				for _, tr := range c11Traffic(T, n, false) {
